@@ -826,6 +826,7 @@ SWITCH_CAUSE = {
     "spec": "fstring-spec-unescaped",
 }
 ALL_SWITCHES = frozenset(SWITCH_CAUSE)
+REPAIRED_SWITCHES = frozenset({"spec"})  # fix 4c3fc98: the format spec is escaped like the literal text around it
 BIN_PREC = {"or": 3, "and": 4, "|": 7, "^": 8, "&": 9, "<<": 10, ">>": 10, "+": 11, "-": 11, "*": 12, "/": 12, "//": 12, "%": 12, "@": 12, "**": 14}
 
 
@@ -1108,7 +1109,8 @@ def defect_sets(n: Any, limit: int = 6):
     """(D, text refurb prints when exactly the defects D are present), fewest defects first"""
     from itertools import combinations
 
-    app = applicable(n)
+    # a defect that was repaired in /repo is no longer a candidate explanation: its switch stays on
+    app = [a for a in applicable(n) if a not in REPAIRED_SWITCHES]
     if len(app) > limit:
         yield frozenset(), Twin(ALL_SWITCHES).top(n)
         yield frozenset(app), Twin(ALL_SWITCHES - frozenset(app)).top(n)
